@@ -612,87 +612,78 @@ def _encoding(r):
 
 
 def gen_expr(r, abi, invariant):
-    """Random DWARF expression built from the library's own operation
-    classes.  ``invariant``: only operations whose encoding does not depend
-    on the byte order."""
-    from gtirb_rewriting.dwarf import expr as ex
-
+    """Random DWARF expression in the reference form (lists as produced by
+    cfi_ref.decode_expr); it is encoded by cfi_ref.encode_expr, i.e. NOT by
+    the library under test.  ``invariant``: only operations whose encoding
+    does not depend on the byte order."""
     ptr_bits = abi["ptr"] * 8
     ops = []
     for _ in range(r.choice([1, 1, 2, 2, 3, 4, 6])):
         kind = r.choice(["breg", "breg", "bregx", "lit", "reg", "regx", "plus_uconst", "c1", "cleb", "wide", "addr", "nullary", "nullary", "pick", "deref_size", "branch"])
         if kind == "breg":
-            ops.append(ex.OpBReg(r.randint(0, 31), _off(r)))
+            ops.append(["breg", r.randint(0, 31), _off(r)])
         elif kind == "bregx":
-            ops.append(ex.OpBRegX(_reg(r), _off(r)))
+            ops.append(["bregx", _reg(r), _off(r)])
         elif kind == "lit":
-            ops.append(ex.OpLit(r.randint(0, 31)))
+            ops.append(["lit", r.randint(0, 31)])
         elif kind == "reg":
-            ops.append(ex.OpReg(r.randint(0, 31)))
+            ops.append(["reg", r.randint(0, 31)])
         elif kind == "regx":
-            ops.append(ex.OpRegX(_reg(r)))
+            ops.append(["regx", _reg(r)])
         elif kind == "plus_uconst":
-            ops.append(ex.OpPlusUConst(r.choice([0, 8, 127, 128, 300, 2**32])))
+            ops.append(["plus_uconst", r.choice([0, 8, 127, 128, 300, 2**32])])
         elif kind == "c1":
-            ops.append(r.choice([ex.OpConst1U(r.randint(0, 255)), ex.OpConst1S(r.randint(-128, 127))]))
+            ops.append(r.choice([["const1u", r.randint(0, 255)], ["const1s", r.randint(-128, 127)]]))
         elif kind == "cleb":
-            ops.append(r.choice([ex.OpConstU(abs(_off(r))), ex.OpConstS(_off(r))]))
+            ops.append(r.choice([["constu", abs(_off(r))], ["consts", _off(r)]]))
         elif kind == "wide":
             if invariant:
-                ops.append(r.choice([ex.OpConst2U(0x0101 * r.randint(0, 255)), ex.OpConst4U(0), ex.OpConst8S(-1), ex.OpConst2S(-1)]))
+                ops.append(r.choice([["const2u", 0x0101 * r.randint(0, 255)], ["const4u", 0], ["const8s", -1], ["const2s", -1]]))
             else:
                 ops.append(
                     r.choice(
                         [
-                            ex.OpConst2U(r.randint(0, 0xFFFF)),
-                            ex.OpConst2S(r.randint(-0x8000, 0x7FFF)),
-                            ex.OpConst4U(r.randint(0, 2**32 - 1)),
-                            ex.OpConst4S(r.randint(-(2**31), 2**31 - 1)),
-                            ex.OpConst8U(r.randint(0, 2**64 - 1)),
-                            ex.OpConst8S(r.randint(-(2**63), 2**63 - 1)),
+                            ["const2u", r.randint(0, 0xFFFF)],
+                            ["const2s", r.randint(-0x8000, 0x7FFF)],
+                            ["const4u", r.randint(0, 2**32 - 1)],
+                            ["const4s", r.randint(-(2**31), 2**31 - 1)],
+                            ["const8u", r.randint(0, 2**64 - 1)],
+                            ["const8s", r.randint(-(2**63), 2**63 - 1)],
                         ]
                     )
                 )
         elif kind == "addr":
-            ops.append(ex.OpAddr(r.choice([0, 2**ptr_bits - 1]) if invariant else r.randint(0, 2**ptr_bits - 1)))
+            ops.append(["addr", r.choice([0, 2**ptr_bits - 1]) if invariant else r.randint(0, 2**ptr_bits - 1)])
         elif kind == "pick":
-            ops.append(ex.OpPick(r.randint(0, 255)))
+            ops.append(["pick", r.randint(0, 255)])
         elif kind == "deref_size":
-            ops.append(ex.OpDerefSize(r.choice([1, 2, 4, 8])))
+            ops.append(["deref_size", r.choice([1, 2, 4, 8])])
         elif kind == "branch":
             d = r.choice([0, -1]) if invariant else r.randint(-0x8000, 0x7FFF)
-            ops.append(r.choice([ex.OpSkip, ex.OpBra])(d))
+            ops.append([r.choice(["skip", "bra"]), d])
         else:
-            cls = r.choice(
-                [ex.OpDup, ex.OpDrop, ex.OpOver, ex.OpSwap, ex.OpRot, ex.OpXDeref, ex.OpDeref, ex.OpAbs, ex.OpAnd, ex.OpDiv, ex.OpMinus, ex.OpMod,
-                 ex.OpMul, ex.OpNeg, ex.OpNot, ex.OpOr, ex.OpPlus, ex.OpShl, ex.OpShr, ex.OpShrA, ex.OpXor, ex.OpEq, ex.OpGe, ex.OpGt, ex.OpLe,
-                 ex.OpLt, ex.OpNe]
-            )  # fmt: skip
-            ops.append(cls())
+            ops.append([r.choice(["dup", "drop", "over", "swap", "rot", "xderef", "deref", "abs", "and", "div", "minus", "mod", "mul", "neg", "not", "or",
+                                  "plus", "shl", "shr", "shra", "xor", "eq", "ge", "gt", "le", "lt", "ne"])])  # fmt: skip
     return ops
 
 
 def gen_escape(r, abi, invariant):
-    """Operand bytes of a .cfi_escape built with the library's encoders."""
-    from gtirb_rewriting.dwarf import cfi
-
-    payload = bytearray()
+    """Operand bytes of a .cfi_escape, encoded independently of the library
+    (opcode, ULEB128 register, DW_FORM_block = ULEB128 length + expression)."""
+    payload = []
     for _ in range(r.choice([1, 1, 1, 2, 3])):
         kind = _pick_w(r, [("def_cfa_expression", 4), ("expression", 4), ("val_expression", 4), ("nop", 2)])
         if kind == "nop":
-            inst = cfi.InstNop()
-        elif kind == "def_cfa_expression":
-            inst = cfi.InstDefCFAExpression(gen_expr(r, abi, invariant))
-        else:
-            # the instruction header is encoded here, independently of the
-            # library (opcode, ULEB128 register as a compiler emits it); only
-            # the DW_FORM_block with the expression comes from its encoders
-            block = cfi.InstDefCFAExpression(gen_expr(r, abi, invariant)).encode(abi["order"], abi["ptr"])[1:]
-            reg = r.choice([64, 72, 79, 100, 127]) if r.random() < 0.15 else _reg(r)
-            payload += bytes([0x10 if kind == "expression" else 0x16] + _uleb_bytes(reg)) + bytes(block)
+            payload.append(0x00)
             continue
-        payload += inst.encode(abi["order"], abi["ptr"])
-    return list(payload)
+        body = cfi_ref.encode_expr(gen_expr(r, abi, invariant), abi["order"], abi["ptr"])
+        block = _uleb_bytes(len(body)) + body
+        if kind == "def_cfa_expression":
+            payload += [0x0F] + block
+        else:
+            reg = r.choice([64, 72, 79, 100, 127]) if r.random() < 0.15 else _reg(r)
+            payload += [0x10 if kind == "expression" else 0x16] + _uleb_bytes(reg) + block
+    return payload
 
 
 class _Gen:
